@@ -261,7 +261,10 @@ def e2e_case(draw, tier="quick"):
     cuts = None
     if t and draw(st.integers(0, 3)) != 0:
         idx = sorted(draw(st.lists(st.integers(0, len(t)), min_size=nctx + 1, max_size=nctx + 1)))
-        cuts = [(t[i] - 3 if i < len(t) else t[-1] + 3) for i in idx]
+        # cut points strictly between rows, or (half of the cases) exactly on a row's time: that row belongs to the window
+        # that *starts* there, so adjacent windows [a, b) [b, c) stay disjoint
+        on_row = draw(st.booleans())
+        cuts = [((t[i] if on_row else t[i] - 3) if i < len(t) else t[-1] + 3) for i in idx]
     ctxs = []
     for k in range(nctx):
         streams = {}
